@@ -35,6 +35,19 @@ def key(t):
     return specs.tkey(t)
 
 
+def fit(a, b):
+    """ Do the types a and b agree? True / False when the harness-side
+    reading and the library's own equality (both ways round) say the same,
+    None when they disagree: the request is then neither well-typed nor
+    ill-typed for this property (e.g. the bare slash type x << Ty() against
+    Ty(x << Ty()) in biclosed) and is not made. """
+    mine = key(a) == key(b)
+    theirs = (bool(a == b), bool(b == a))
+    if theirs == (mine, mine):
+        return mine
+    return None
+
+
 def is_monoidal(d):
     from discopy import monoidal
     return isinstance(d, monoidal.Diagram)
@@ -79,15 +92,15 @@ def run_op(run, op):
     mono = is_monoidal(x)
     n = len(x.boxes)
     if name == "then_fit":
-        fits = [p for p in run.pool if key(p.dom) == key(x.cod)]
+        fits = [p for p in run.pool if fit(x.cod, p.dom)]
         if fits:
             run.add(x >> fits[j % len(fits)], "then")
     elif name == "then_any":
         y = run.pick(j)
-        if key(x.cod) == key(y.dom):
+        if fit(x.cod, y.dom):
             run.add(x >> y, "then")
             run.add(y << x, "<<")
-        else:
+        elif fit(x.cod, y.dom) is False:
             run.refuse(lambda: x >> y, "{} >> {}".format(
                 common.show(x), common.show(y)))
             run.refuse(lambda: x.then(y, y), "then(y, y)")
@@ -189,10 +202,10 @@ def run_op(run, op):
             run.add(x.permute(*perm), "permute")
     elif name == "add":
         y = run.pick(j)
-        if (key(x.dom), key(x.cod)) == (key(y.dom), key(y.cod)):
+        if fit(x.dom, y.dom) and fit(x.cod, y.cod):
             total = x + y
             run.add(total, "sum")
-            fits = [p for p in run.pool if key(p.dom) == key(x.cod)]
+            fits = [p for p in run.pool if fit(x.cod, p.dom)]
             if fits:
                 run.add(total >> fits[0], "sum >> diagram")
             if mono:
@@ -202,7 +215,7 @@ def run_op(run, op):
                         "FA", "BA", "FC", "BC", "FX", "BX", "Curry", "Bubble")
                     for t in (x, y) for b in t.boxes):
                 run.add(total[::-1], "sum dagger")
-        else:
+        elif False in (fit(x.dom, y.dom), fit(x.cod, y.cod)):
             run.refuse(lambda: x + y, "{} + {}".format(
                 common.show(x), common.show(y)))
     elif name == "bubble" and cls in ("cat", "monoidal", "rigid"):
